@@ -164,7 +164,7 @@ def run(ctx):
                 "with the fake lmod; non-trivial = >=2 module variables and caller variables the modules do not "
                 "touch; distinct = distinct generated case")
     results = ctx.pmap("vp.props.c39:batch", [{"cases": cases[i:i + per]} for i in range(0, n, per)],
-                       nproc=8 if quick else 16, timeout=300 if quick else 7200)
+                       nproc=int(os.environ.get("VP_NPROC") or (8 if quick else 16)), timeout=300 if quick else 7200)
     hist = {}
     for b in results:
         for r in b.get("multi", [b]):
